@@ -176,8 +176,8 @@ def main(tier):
                 run.count("vmap-concurrent.unknown")
         # Length is a count over all keys and cannot be checked per key: a writer storing distinct keys (never deleting) while readers call
         # Length — each result lies between the stores completed before the call and those started when it returned
-        ll = [f"vmaplen {r.randint(1, 10**6)} {r.choice((2, 4, 6))} {r.choice((200, 600, 1500))}" for _ in range(20 if tier == "thorough" else 6)]
-        for ln, g in run.go_only("vmap-length-concurrent", ll, go_timeout=300):
+        ll = [f"vmaplen {r.randint(1, 10**6)} {r.choice((2, 4, 6))} {r.choice((200, 600, 1000))}" for _ in range(20 if tier == "thorough" else 6)]
+        for ln, g in run.go_only("vmap-length-concurrent", ll, go_timeout=600, line_timeout=120):
             run.nontriv(("len-conc", ln))
             if g.startswith("bad "):
                 run.violation("vmap-concurrent:Length-not-linearizable", {"case": ln, "implementation": g[:400]})
